@@ -84,25 +84,55 @@ namespace c14
     // The targets within `delta` of the stated one: position moved by 0 / +-delta * rho along x and y, heading by
     // 0 / +-delta (27 targets).  delta = 2e-6 is the resolution the library documents for itself (DUBINS_EPS = 1e-6:
     // angles within 5e-7 of a full turn are snapped to 0, poses closer than 1e-6 are the same pose).
-    inline Envelope envelope(const Pose &A, const Pose &B, double rho, LD delta = 2e-6L)
+    inline bool within(const Pose &P, const Pose &B, double rho, LD delta)
+    {
+        return std::isfinite(P.x) && std::isfinite(P.y) && std::isfinite(P.th) && fabsl((LD)P.x - B.x) <= delta * rho &&
+               fabsl((LD)P.y - B.y) <= delta * rho && fabsl(wrapPi((LD)P.th - B.th)) <= delta;
+    }
+    // `witness`: the pose at which the curve the library actually traced ends; when it lies within delta of the
+    // target it is one more target the independent optimum is evaluated for (the library's trivial shortcut and its
+    // angle snapping aim at such a pose, which a 3x3x3 grid does not contain).  backwards: the optimum of the
+    // opposite direction (symmetrised space).
+    inline Envelope envelope(const Pose &A, const Pose &B, double rho, const Pose *witness = nullptr, bool backwards = false,
+                             LD delta = 2e-6L)
     {
         Envelope e;
-        Canon c = canon(A, B, rho);
-        Six s = sixWords(c.d, c.alpha, c.beta);
-        e.opt = e.lo = e.hi = s.opt;
-        e.best = s.best;
+        auto optOf = [&](const Pose &T, int *best)
+        {
+            Canon c = backwards ? canon(T, A, rho) : canon(A, T, rho);
+            Six s = sixWords(c.d, c.alpha, c.beta);
+            if (best)
+                *best = s.best;
+            return s.opt;
+        };
+        e.opt = e.lo = e.hi = optOf(B, &e.best);
         for (int k = 0; k < 27; ++k)
         {
             int i = k % 3 - 1, j = (k / 3) % 3 - 1, l = k / 9 - 1;
             if (i == 0 && j == 0 && l == 0)
                 continue;
             Pose P{(double)(B.x + i * delta * rho), (double)(B.y + j * delta * rho), (double)(B.th + l * delta)};
-            Canon cp = canon(A, P, rho);
-            LD v = sixWords(cp.d, cp.alpha, cp.beta).opt;
+            LD v = optOf(P, nullptr);
+            e.lo = std::min(e.lo, v);
+            e.hi = std::max(e.hi, v);
+        }
+        if (witness && within(*witness, B, rho, delta))
+        {
+            LD v = optOf(*witness, nullptr);
             e.lo = std::min(e.lo, v);
             e.hi = std::max(e.hi, v);
         }
         return e;
+    }
+
+    // an arc of (almost) a full turn: no shortest curve contains one, the library produces it when a float-precision
+    // switching function is evaluated on the wrong side of the 0 / 2pi seam of an arc angle
+    inline bool fullTurnArc(const ob::DubinsStateSpace::DubinsPath &p)
+    {
+        for (int k = 0; k < 3; ++k)
+            if (p.type_->at(k) != ob::DubinsStateSpace::DUBINS_STRAIGHT && p.length_[k] > 2 * M_PI - 1e-5 && p.length_[k] < 1e3)
+                return true;
+        return false;
     }
 
     struct PairRecorder
@@ -148,6 +178,7 @@ namespace c14
             CurveObs cv;
             Pose endP{NAN, NAN, NAN};
             std::vector<long long> pre, preLo, preHi;
+            std::vector<bool> preFta;
             std::vector<int> isegs;
             if (pathFinite)
             {
@@ -181,11 +212,24 @@ namespace c14
                     sp->interpolate(a.s, b.s, k / 8.0, s.s);
                     pre.push_back(sc.U(sp->distance(a.s, s.s)));
                     // the six-word optimum (envelope over the library's input resolution) for the prefix's end point
-                    Pose P = s.get();
-                    Envelope ek = envelope(A, P, rho);
+                    Pose P = s.get(), W{NAN, NAN, NAN};
+                    preFta.push_back(fullTurnArc(sp->dubins(a.s, s.s)) || (sym && fullTurnArc(sp->dubins(s.s, a.s))));
+                    {
+                        // where the curve the library traces to that point ends
+                        bool f2 = true;
+                        ob::DubinsStateSpace::DubinsPath pk;
+                        St tmp(sp.get());
+                        sp->interpolate(a.s, s.s, 0.5, f2, pk, tmp.s);
+                        if (!f2 && std::isfinite(pk.length()) && pk.length() < 1e6 * (1 + (double)cf.d))
+                        {
+                            sp->interpolate(a.s, pk, 1.0, tmp.s, rho);
+                            W = tmp.get();
+                        }
+                    }
+                    Envelope ek = envelope(A, P, rho, &W);
                     if (sym)
                     {
-                        Envelope er = envelope(P, A, rho);
+                        Envelope er = envelope(A, P, rho, &W, true);
                         ek.lo = std::min(ek.lo, er.lo);
                         ek.hi = std::min(ek.hi, er.hi);
                     }
@@ -198,7 +242,7 @@ namespace c14
 
             // --- the harness's own view: branch case and the six-word optimum
             Branch bf = dubinsBranch(cf, tb), bb;
-            Envelope ef = envelope(A, B, rho), eb = ef;
+            Envelope ef = envelope(A, B, rho, &endP), eb = ef;
             std::string br = bf.id, pw = bf.word >= 0 ? DWORD_NAME[bf.word] : "?";
             LD margin = bf.margin;
             LD opt = ef.opt, lo = ef.lo, hi = ef.hi;
@@ -206,7 +250,7 @@ namespace c14
             if (sym)
             {
                 bb = dubinsBranch(cb, tb);
-                eb = envelope(B, A, rho);
+                eb = envelope(A, B, rho, &endP, true);
                 bool prv = eb.opt < ef.opt;
                 const Branch &ch = prv ? bb : bf;
                 trail = {"sym", std::string("rev=") + (prv ? "T" : "F"), ch.word >= 0 ? DWORD_NAME[ch.word] : "?"};
@@ -258,6 +302,8 @@ namespace c14
             e["pre"] = pre;
             e["preLo"] = preLo;
             e["preHi"] = preHi;
+            e["preFta"] = preFta;
+            e["fta"] = fullTurnArc(sp->dubins(a.s, b.s)) || (sym && fullTurnArc(sp->dubins(b.s, a.s)));
             e["nseg"] = 3;
             std::vector<int> nz;
             for (double v : segOrd)
@@ -393,7 +439,7 @@ namespace c14
                             if (t * L < c)
                                 break;
                         }
-                        k = std::min(k, 4);
+                        k = std::min(k, std::max(nseg, 1) - 1);
                         if (std::find(isegs.begin(), isegs.end(), k) == isegs.end())
                             isegs.push_back(k);
                     }
